@@ -251,7 +251,7 @@ func cmdCheck(prop, tier string) int {
 						os.WriteFile(filepath.Join(outDir, "replays", fmt.Sprintf("slow-%s-%d.json", prop, o.c.Seed)), data, 0o644)
 					}
 				}
-				if a.slow > 3 && a.slow*200 > a.runs {
+				if a.slow > 10 && a.slow*50 > a.runs {
 					infra = fmt.Sprintf("%d of %d runs exceeded the real-time limit (last seed %d)", a.slow, a.runs, o.c.Seed)
 					return false
 				}
